@@ -129,7 +129,7 @@ func c01Case(t *rm.Type, v *rm.Value) *ev.Violation {
 }
 
 func runC01(r *ev.Run, thorough bool) {
-	r.Rule = "per type: values within <=k deviating leaves of bases Z (all-zero) and D (all-distinct), canonical alphabets (DESIGN 3.2); real Encode into empty buffer, real Decode into fresh receiver, bitwise/bytewise equality, computed fields vs correct values; distinct = distinct (type,value) by hash; non-trivial = at least one non-zero leaf"
+	r.Rule = "per type: values within <=k deviating leaves of bases Z (all-zero) and D (all-distinct), canonical alphabets (DESIGN 3.2); real Encode into empty buffer, real Decode into fresh receiver, bitwise/bytewise equality, computed fields vs correct values; then, AFTER A LONG SESSION (5,000 / 70,000 round trips of ever new values per type), 8 never-seen values per type; distinct = distinct (type,value) by hash; non-trivial = at least one non-zero leaf"
 	r.Assume("bind (reflection) converts values faithfully; canonical domain as stated in C01")
 	parTypes(r, bind.Types, func(t *rm.Type, l *ev.Local) {
 		k := 1
@@ -155,6 +155,26 @@ func runC01(r *ev.Run, thorough bool) {
 			}
 			return true
 		})
+	})
+	// after a long session (state the library may accumulate across calls): never-seen values must still round-trip
+	wn := warmN(thorough)
+	warmSession(r, wn)
+	parTypes(r, bind.Types, func(t *rm.Type, l *ev.Local) {
+		for s := wn + 1; s <= wn+8; s++ {
+			v := valenum.Salted(t, s)
+			if _, err := rm.EncodeBytes(v); err != nil {
+				continue
+			}
+			l.Eval(ev.H(fmt.Sprint(t.QName(), "warm", s)), true)
+			l.Transitions += 2
+			l.Traces++
+			if viol := c01Case(t, v); viol != nil {
+				viol.Detail = fmt.Sprintf("after a session of %d round trips per type, new value (salt %d): ", wn, s) + viol.Detail
+				viol.Replay["warm_session"] = wn
+				r.Violate(viol)
+				break
+			}
+		}
 	})
 	r.Set("bound", map[string]any{"k_deviations": map[bool]string{false: "1", true: "2 (3 for types with <=10 leaves)"}[thorough], "types": len(bind.Types)})
 }
